@@ -40,7 +40,7 @@ Example checker_accepts_reported_state :
             (8549374645014243 # 10000000000000000) = true /\
   check_fug (1 # 10000) (8549374645014243 # 10000000000000000) (22014262007358028 # 1000000000000000)
             (12746384798804122 # 10000000000000000) = true.
-Proof. repeat split; vm_compute; reflexivity. Qed.
+Proof. split; [| split]; vm_compute; reflexivity. Qed.
 
 (* ... and rejects a wrong one (the checker is not trivially true) *)
 Example checker_rejects_wrong_pressure :
